@@ -82,9 +82,16 @@ class W29(World):
 
 def make_policy(pol):
     def policy(name, data, world):
-        if pol == "edit" and name in ("tcp_message", "udp_message"):
-            m = data.messages[-1]
+        if name not in ("tcp_message", "udp_message"):
+            return
+        m = data.messages[-1]
+        if pol == "edit":
             m.content = b"E(" + m.content + b")"
+        elif pol == "empty":
+            # the addon empties the first message of each direction (an empty UDP datagram is a datagram;
+            # an empty TCP segment is nothing on the wire); injections in this configuration are empty too
+            if sum(1 for x in data.messages if x.from_client == m.from_client) == 1:
+                m.content = b""
 
     return policy if pol != "pass" else None
 
@@ -181,6 +188,8 @@ class Exec:
             from_client = a == "inject_c"
             k = "inj_c" if from_client else "inj_s"
             d = b"<i%s%d>" % (b"c" if from_client else b"s", st[k])
+            if self.pol == "empty":
+                d = b""  # inject.udp / inject.tcp with an empty payload
             st[k] += 1
             fl = self.flow(w)
             ps = w.master.addons.get("proxyserver")
@@ -196,6 +205,8 @@ class Exec:
                 owed = False
             if self.proto == "udp" and (st["c_eof"] or st["s_eof"]):
                 owed = False
+            if not d:
+                owed = False  # an empty injection has no tag to look for; its relay is judged by the datagram list
             st["injected"].append({"tag": d, "from_client": from_client, "owed": owed,
                                    "target_half_closed": st["s_eof"] if from_client else st["c_eof"]})
             # the real command; to_client = not from_client
@@ -378,6 +389,7 @@ def specs(tier):
             for pol in ("pass", "edit"):
                 for hold in ("none", "msg"):
                     out.append((proto, strategy, pol, hold, False))
+            out.append((proto, strategy, "empty", "none", False))
             out.append((proto, strategy, "pass", "none", True))
     return out
 
@@ -398,7 +410,7 @@ def run(ctx):
     _DEPTH = depth = ctx.pick(6, 7)
     sp = specs(ctx.tier)
     ctx.bounds = {"depth": depth, "configurations": len(sp), "protocols": ["tcp", "udp"], "connection_strategy": ["eager", "lazy"],
-                  "policy": ["pass", "edit every message"], "held_hooks": ["none", "tcp_message/udp_message"], "ignore_hosts_variant": True,
+                  "policy": ["pass", "edit every message", "empty the first message of each direction + empty injections"], "held_hooks": ["none", "tcp_message/udp_message"], "ignore_hosts_variant": True,
                   "max_data_per_side": MAX_DATA, "max_injections_per_direction": MAX_INJECT}
     # determinism self-test
     a = Exec("tcp", "lazy", "edit", "msg", False, depth).run((1, 0, 0), Tally())
